@@ -67,8 +67,12 @@ namespace verif::e2 {
     }
     inline void unlock() { g_lock.store(false, std::memory_order_release); }
 
+    // a harness may install its own site filter (used by e2/mpi.cpp: only mpi.* tm.* x.*)
+    inline bool (*g_wanted)(char const*) = nullptr;
+
     inline bool wanted(char const* s)
     {
+        if (g_wanted != nullptr) return g_wanted(s);
         // scheduler protocol sites + harness notes; everything else (sl.*, cv.*, sem.* ...) is dropped
         switch (s[0])
         {
